@@ -11,6 +11,9 @@
 //	conc      <U> <segs>                   16 goroutines on one client vs solo runs (child process)
 //	racedet   <U> <segs>                   the same under the race detector (thorough tier)
 //	classify  <target>                     the finding classifier (hasRange) — tie with Lean
+//	probe stable <U> / probe raceresolve <U>   Go-only (stable.go): the client's answers before and
+//	                                       after resolving through it, read attribute by attribute;
+//	                                       concurrent resolutions through one client under -race
 package main
 
 import (
@@ -30,7 +33,14 @@ const rule = "streams: (1) known-finding witnesses and corpus; (2) small-scope e
 	"followed by all four calls on every bundle (right and wrong versions) and on plain names; (4) malformed responses " +
 	"(duplicate bundle paths, missing bundle parents, names and versions containing '>', unreadable paths, Npm=nil, duplicate " +
 	"packages/versions, lookups before the bundler's Requirements); (5) B5: real npm resolver over APIClient vs LocalClient on every " +
-	"root of closed universes; (6) B6: 16 goroutines on one client vs solo runs (and the same under -race in the thorough tier). " +
+	"root of closed universes; (6) B6: 16 goroutines on one client vs solo runs (and the same under -race in the thorough tier); " +
+	"(7) directed universes in which bundled packages (also nested ones) have dependencies of their own that must be installed fresh " +
+	"below the bundle, through aliases (KnownAs), bundleDependencies (Scope), optional and peer sections, run through all of the above; " +
+	"(8) probe stable on every universe of (3) and (7): the four calls on every plain and bundled version are dumped attribute by " +
+	"attribute (every AttrKey through GetAttr/HasAttr, IsRegular/Empty, String, Clone) before and after the real npm resolver has " +
+	"resolved every root through that same client (bundled keys re-read by lookups after each resolution), values handed out earlier " +
+	"are read again, and a second fresh client is compared; probe raceresolve: 8 goroutines resolving every root through one client " +
+	"in a -race child process (3 directed universes in the quick tier, more in the thorough tier). " +
 	"A case is distinct by its op line; non-trivial = the call sequence reached at least one bundled version through a successful " +
 	"Requirements(bundler), or flattened at least one alias."
 
@@ -89,6 +99,21 @@ func execOp(f []string) string {
 			return "ok diverged"
 		}
 		return "ok races=0"
+	case "probe":
+		if len(f) != 3 {
+			return "bad-op"
+		}
+		u, ok := decUniverse(f[2])
+		if !ok {
+			return "bad-op"
+		}
+		switch f[1] {
+		case "stable":
+			return probeStable(u)
+		case "raceresolve":
+			return probeRaceResolve(f[2])
+		}
+		return "bad-op"
 	case "classify":
 		if len(f) != 2 {
 			return "bad-op"
@@ -299,6 +324,12 @@ func recheck(oracle string, ops, res []string) (bool, string) {
 		}
 		return false, ""
 	}
+	if oracle == "stable" {
+		if f := strings.Fields(ops[0]); len(f) != 4 || f[1] != "probe" || f[2] != "stable" {
+			return true, "stable needs a probe stable op"
+		}
+		return recheckStable(res[0])
+	}
 	op, u, cs, rest, ok := parseOp(ops[0])
 	if !ok {
 		return true, "unparsable op"
@@ -411,6 +442,10 @@ func main() {
 		concWorker(os.Args[2:])
 		return
 	}
+	if len(os.Args) >= 2 && os.Args[1] == "resolveworker" {
+		resolveWorker(os.Args[2:])
+		return
+	}
 	if len(os.Args) >= 2 && os.Args[1] == "drive" {
 		// Build the -race variant before any op runs: a cold build (~30 s) inside an op
 		// would trip the framework's 20 s per-op watchdog.
@@ -424,4 +459,7 @@ func main() {
 		Recheck:  recheck,
 		Classify: classify,
 	})
+	if raceTemp != "" {
+		os.Remove(raceTemp)
+	}
 }
